@@ -1,4 +1,5 @@
 """C02 — schedule token contract (exactly-once tokens, order, Left, composites)."""
+import os
 import re
 from vlib import common
 
@@ -17,19 +18,94 @@ def what_fn(case, obs, verdict):
     return "schedule %s: %s" % (case.split(" ")[1][:120], verdict)
 
 
+RULE = ("non-trivial: seq cases on a schedule of >=2 parts with at least one Next; conc cases on a schedule of >=2 parts "
+        "with >=2 goroutines and >=2 Next calls; race cases (bare leaves, repeated contended drains) on a schedule with >=1 token; "
+        "distinct = distinct case lines")
+
+TRUSTED = [
+    "extraction: ExtrOcamlBasic only; OCaml driver ocaml/C02/*.ml + ocaml/common/conv.ml",
+    "correspondence harness harness/cmd/hC02 (real NewOnce/NewConst/NewLine/NewStep/NewUnlimited/NewComposite/NewInstanceStep/"
+    "NewCallbackOnFinishSchedule; leaves wrapped in recording wrappers holding one log mutex across inner call + append; "
+    "goroutine identity from runtime.Stack)",
+    "modelled, not verified: leaf token offsets (given as tables drained from fresh real leaves; property C01), "
+    "sync.RWMutex / sync.Once / go.uber.org/atomic atomicity, the wall clock (oracle input); the merge of started.Store / "
+    "started.Load into the adjacent lock sections (design/C02.md)",
+    "nested composites under concurrency: children taken as atomic objects (C02_conc_nested_partial); the substitution principle for "
+    "linearizable objects is cited, not mechanised",
+]
+ASSUMPTIONS = ["sync.RWMutex, sync.Once and go.uber.org/atomic behave as documented",
+               "time.Now is monotone; unlimited parts in the correspondence run are either closed long before or open long after the run"]
+
+
+def log_stats(path):
+    """How often the interesting branches of composite.go were exercised (from the recorded logs)."""
+    st = {"conc_cases": 0, "conformance_replays": 0, "shifts_by_callers": 0, "left_shift_probes": 0,
+          "next_after_somebody_shifted": 0, "left_minus_one": 0, "finish_results": 0}
+    if not os.path.exists(path):
+        return st
+    for line in open(path):
+        if " | " not in line:
+            continue
+        st["conc_cases"] += 1
+        summary, log = line.rstrip("\n").split(" | ", 1)
+        ev = log.split(" ")
+        pend = {}
+        last = {}
+        for e in ev:
+            f = e.split(".")
+            if len(f) < 3:
+                continue
+            g = f[0]
+            if f[1] == "c":
+                pend[g] = f[2]
+                last[g] = None
+            elif f[1] == "r":
+                if f[2] == "L" and f[3] == "-1":
+                    st["left_minus_one"] += 1
+                if f[2] == "N" and f[3].endswith(":0"):
+                    st["finish_results"] += 1
+            elif f[2] == "S" and g in pend:
+                st["shifts_by_callers"] += 1
+                if pend[g] == "L":
+                    st["left_shift_probes"] += 1
+                last[g] = "S"
+            elif f[2] == "N" and g in pend:
+                # a second leaf-level Next of the same call without a Start in between
+                if last.get(g) == "N0" and pend[g] == "N":
+                    st["next_after_somebody_shifted"] += 1
+                last[g] = "N0" if f[3].endswith(":0") else "N1"
+    return st
+
+
 def run(ctx):
-    common.standard(
-        ctx, harness="hC02", extracted="C02_model", driver_dir="C02",
-        rule=("non-trivial: seq cases on a schedule of >=2 parts with at least one Next; conc cases on a schedule of >=2 parts "
-              "with >=2 goroutines and >=2 Next calls; distinct = distinct case lines"),
-        key_fn=key_fn, what_fn=what_fn,
-        trusted=[
-            "extraction: ExtrOcamlBasic only; OCaml driver ocaml/C02/*.ml + ocaml/common/conv.ml",
-            "correspondence harness harness/cmd/hC02 (real NewOnce/NewConst/NewLine/NewStep/NewUnlimited/NewComposite/NewInstanceStep/"
-            "NewCallbackOnFinishSchedule; leaves wrapped in recording wrappers holding one log mutex across inner call + append)",
-            "modelled, not verified: leaf token offsets (given as tables drained from fresh real leaves; property C01), "
-            "sync.RWMutex / sync.Once / go.uber.org/atomic atomicity, the wall clock (oracle input)",
-        ],
-        assumptions=["sync.RWMutex, sync.Once and go.uber.org/atomic behave as documented",
-                     "time.Now is monotone; unlimited parts in the correspondence run are either closed long before or open long after the run"],
-    )
+    cov = {"rule": RULE, "evaluations": 0, "distinct_nontrivial": 0}
+    model_ok = ctx.coq(["Extract/Extract%s.vo" % ctx.prop], what="model+extraction")
+    if model_ok:
+        ctx.properties()
+    h = ctx.build_harness("hC02")
+    m = ctx.ocaml_model("mC02", "C02_model", "C02") if model_ok else None
+    if h and m:
+        st = common.correspondence(ctx, h, m, key_fn=key_fn, what_fn=what_fn)
+        if st:
+            cov.update(st)
+        cov["branch_counts"] = log_stats(os.path.join(ctx.work, "obs-%s.txt" % ctx.tier))
+        cases_p = os.path.join(ctx.work, "cases-%s.txt" % ctx.tier)
+        if os.path.exists(cases_p):
+            n = 0
+            for line in open(cases_p):
+                f = line.split(" ")
+                if f[0] == "conc" and f[2] == "S" and f[1].startswith("comp(") and f[1] != "comp()":
+                    inner = f[1][5:].replace("comp()", "")
+                    if "comp(" not in inner and ";" in f[1]:
+                        n += 1
+            cov["branch_counts"]["conformance_replays"] = n
+        if ctx.brokens and not ctx.violations and ctx.quick() and not ctx.replay:
+            st2 = common.correspondence(ctx, h, m, key_fn=key_fn, what_fn=what_fn, tier="thorough", label="escalated")
+            if st2:
+                cov["escalated_evaluations"] = st2["evaluations"]
+    if not ctx.quick() and not ctx.replay and model_ok and not ctx.brokens and hasattr(ctx, "coqchk"):
+        ck = ctx.coqchk()
+        if ck:
+            cov.update(ck)
+    cov["trusted_base_extra"] = list(TRUSTED)
+    ctx.finish(cov, assumptions=list(ASSUMPTIONS))
